@@ -173,6 +173,14 @@ pub fn case_json(mat: &Mat, hist: &[Op], scores: &[f64], ps: &[f64]) -> Value {
     v
 }
 
+fn entries_hint(quick: bool) -> &'static str {
+    if quick {
+        "all log-odds menu"
+    } else {
+        "all log-odds menu (6 windows per width)"
+    }
+}
+
 pub fn run(prop: &str, ctx: &mut Ctx, rep: &mut Report) {
     let depth = if ctx.quick() { 3 } else { 4 };
     let oplist = ops();
@@ -180,18 +188,23 @@ pub fn run(prop: &str, ctx: &mut Ctx, rep: &mut Report) {
         "reuse",
         &format!(
             "query histories on ONE TfmPvalue object: operation alphabet = {} queries (approximate_pvalue for 3 scores {{below the minimum, middle, maximum}} stopped after 1 step or run to convergence; approximate_score for 2 p-values stopped after 1 or 2 steps or run to convergence); \
-             ALL histories of length 2..={} whose last query belongs to this property, re-executed on a fresh object, on {} matrices (M in 2..=4, every background configuration, + hand matrices); \
+             ALL histories of length 2..={} whose last query belongs to this property, re-executed on a fresh object, on the {} matrices of width 2..=4 under every background configuration + every hand matrix of width <= 4 (quick: under 3 of the 7 wildcard/background configurations); \
              oracle: the answer to the last query equals the answer of a fresh object on every refinement step (probabilities within 1e-9: hash-map iteration order changes the summation order) (whose answers the logodds/hand spaces check against the exact distribution)",
             oplist.len(),
             depth,
-            if ctx.quick() { 40 } else { 120 }
+            entries_hint(ctx.quick())
         ),
     );
     // matrices: small widths (cheap), all background configurations
     let widths = [2usize, 3, 4];
     let win = |_m: usize| if ctx.quick() { 2 } else { 6 };
-    let mut entries = exact::menu(&widths, &win, &[0.25]);
-    entries.truncate(if ctx.quick() { 40 } else { 120 });
+    // all log-odds entries of these widths + every hand matrix of width <= 4 under the uniform / N=-inf-with-wildcard-
+    // background / skewed configurations (thorough: every configuration)
+    let mut entries: Vec<exact::Entry> = exact::menu(&widths, &win, &[0.25])
+        .into_iter()
+        .filter(|e| e.space == "logodds" || (e.mat.width() <= 4 && (!ctx.quick() || e.mat.origin.contains("uniform, N=-inf") || e.mat.origin.contains("wildcard(.2,.3,.1,.3,.1), N=-inf") || e.mat.origin.contains("skewed"))))
+        .collect();
+    let _ = &mut entries;
     let nh = entries.len();
     let _ = nh;
     let mut states = 0u64;
